@@ -411,11 +411,51 @@ PARTNER = OneOf(corr=CorrSpec(), obs=ObsSpec(), int=Int(), float=Real())
 OPS = {"__add__": lambda x, y: x + y, "__mul__": lambda x, y: x * y, "__truediv__": lambda x, y: x / y}
 
 
+def _nan_slice(c, y, t):
+    """native only: 0 / 0 at timeslice t (the quotient is not a number and has to become undefined)"""
+    x, z = c.content[t], y.content[t]
+    return x is not None and z is not None and float(x[0].value) == 0.0 and float(z[0].value) == 0.0
+
+
+def _div_gen(rng, case):
+    """Corr / Corr with 0/0 slices and undefined slices in front of them (native search only)"""
+    if case["y"] != "corr":
+        return None
+    T = rng.randint(3, 8)
+    num, den = [], []
+    for t in range(T):
+        u = rng.random()
+        if u < 0.2:
+            num.append(None)
+            den.append(rng.choice([None, 1.5]))
+        elif u < 0.45:
+            num.append(0.0)
+            den.append(0.0)
+        else:
+            num.append(rng.choice([0.5, 1.0, -2.0, 3.0]))
+            den.append(rng.choice([0.5, 2.0, -1.0]))
+    if all(x is None or y is None or (x == 0.0 and y == 0.0) for x, y in zip(num, den)):
+        num[0], den[0] = 1.0, 2.0
+    return {"self": native_corr(num), "y": native_corr(den)}
+
+
+def _default_binop_gen(rng, case):
+    specs = {"self": CorrSpec(), "y": dict(PARTNER.variants())[case["y"]]}
+    return {n: sp.random(rng, None) for n, sp in specs.items()}
+
+
 def _binop_post(op):
     def post(a, r):
         c, y = a.self, a.y
         T = Tn(c)
         f = OPS[op]
+        if op == "__truediv__" and is_corr_partner(y) and not isinstance(c, SObj):
+            # native evaluation: additionally a 0/0 quotient (not a number) must come back undefined
+            ok_none = all((r.content[t] is None) == (c.content[t] is None or y.content[t] is None or _nan_slice(c, y, t)) for t in range(T))
+            ok_val = all(r.content[t] is None or abs(float(r.content[t][0].value) - float(c.content[t][0].value) / float(y.content[t][0].value))
+                         <= 1e-12 * (1 + abs(float(r.content[t][0].value))) for t in range(T)
+                         if c.content[t] is not None and y.content[t] is not None and not _nan_slice(c, y, t))
+            return {"is-corr": is_corr(r), "T": Tn(r) == T, "undefined-iff": ok_none, "timeslice-wise": ok_val}
         if is_corr_partner(y):
             return {
                 "is-corr": is_corr(r), "T": Tn(r) == T,
@@ -455,6 +495,10 @@ def _binop_raises(op):
 def _binop_requires(op):
     def req(a):
         y = a.y
+        if op == "__truediv__" and is_corr_partner(y) and not isinstance(y, SObj):
+            # native search: zero denominators only together with zero numerators (0/0 -> not a number -> undefined)
+            return {"0/0 only": all(z is None or float(z[0].value) != 0.0 or (x is not None and float(x[0].value) == 0.0)
+                                    for x, z in zip(a.self.content, y.content)) if a.self.T == y.T else True}
         if op == "__truediv__" and is_corr_partner(y):
             # away from singularities: defined denominators are non-zero
             return {"nonzero-denominator": ForAll(0, Tn(y), lambda t: Implies(Not(CN(y, t)), CV(y, t) != 0))}
@@ -480,6 +524,7 @@ for _op in OPS:
         raises=_binop_raises(_op),
         ensures=_binop_post(_op),
         result=new_corr,
+        gen=(lambda rng, case: _div_gen(rng, case) if rng.random() < 0.6 else _default_binop_gen(rng, case)) if _op == "__truediv__" else None,
         crosscheck="loose",
         not_decided=["complex observables / complex numbers as partners and matrix-valued content (N > 1) are outside the real-valued abstraction",
                      "ndarray partners are not claimed (DESIGN D4)"],
@@ -884,4 +929,28 @@ contract(
     crosscheck=False, refute=False,
     note="the error of an entry is the uninterpreted function DVAL of the entry (observable-as-real abstraction): the postcondition "
          "states that value and error are read from the same, defined, timeslice",
+)
+
+
+# ---------------------------------------------------------------------------------------------------
+# Corr.roll(dt): periodic shift, also for |dt| >= T
+
+def _roll_post(a, r):
+    c = a.self
+    T = Tn(c)
+    src = lambda t: (t - a.dt) % T
+    return {"is-corr": is_corr(r), "T": Tn(r) == T,
+            "periodic shift": ForAll(0, T, lambda t: And(Iff(CN(r, t), CN(c, src(t))), Implies(Not(CN(r, t)), eq(CV(r, t), CV(c, src(t))))))}
+
+
+contract(
+    REL + "::Corr.roll", props=["C14"], lib="obs",
+    params=dict(self=CorrSpec(), dt=Int()),
+    ensures=_roll_post,
+    # the constructor rejects a correlator without a defined timeslice; that the shifted list still has one needs the surjectivity of
+    # k -> (k - dt) mod T, which the div/mod lemma library does not provide: the IndexError path is not excluded by the proof
+    may_raise=("IndexError",),
+    result=new_corr, crosscheck="loose",
+    gen=lambda rng, case: {"self": corr_random(rng), "dt": rng.choice([0, 1, -1, 2, 5, -7, 9, 13, -16, 23])},
+    note="assumed: np.roll(x, s)[k] == x[(k - s) mod len(x)]",
 )
